@@ -126,6 +126,13 @@ type Client struct {
 	log                  util.Logger
 	// for testing
 	mockupDialFunc func() (net.Conn, error)
+
+	// gatewayTransactions holds the exchanges started by the gateway
+	// (incoming PUBLISH QoS 2). The gateway and the client choose their
+	// message IDs independently, hence these exchanges must not share the
+	// message ID space with the exchanges started by the client
+	// (transactions).
+	gatewayTransactions *transactions.TransactionStore
 }
 
 // NewClient sets up a new client according to the provided configuration.
@@ -140,6 +147,8 @@ func NewClient(log util.Logger, cfg *ClientConfig) *Client {
 		stateChangeCh:    make(chan util.ClientState, 1),
 		log:              log,
 		msgID:            util.NewIDSequence(pkts.MinPacketID, pkts.MaxPacketID),
+
+		gatewayTransactions: transactions.NewTransactionStore(),
 	}
 }
 
